@@ -198,9 +198,12 @@ theorem valid_let_intro : (pool[32]'(by decide)).Valid := by
   simp only [evalP, ha env, hb env, Env.set, ofNat1]
   simp
 
+theorem valid_let_let_subst : (pool[33]'(by decide)).Valid := by
+  intro ρ _ env; simp only [pool, List.getElem_cons_succ, List.getElem_cons_zero, evalP]
+
 theorem pool_valid : ∀ r ∈ pool, r.Valid := by
   intro r hr
-  have hlen : pool.length = 33 := by decide
+  have hlen : pool.length = 34 := by decide
   obtain ⟨i, hi, rfl⟩ := List.getElem_of_mem hr
   rw [hlen] at hi
   interval_cases i
@@ -237,6 +240,7 @@ theorem pool_valid : ∀ r ∈ pool, r.Valid := by
   · exact valid_var_factor
   · exact valid_sum_infactor_var
   · exact valid_let_intro
+  · exact valid_let_let_subst
 
 /-- the deliberately invalid rules are indeed invalid (witness: constant interpretations) -/
 theorem bad_sum_const_invalid : ¬ (badPool[1]'(by decide)).Valid := by
